@@ -55,7 +55,10 @@ fn render(m: &Material, toks: &[Value], style: u64) -> String {
             "key" => ["[Key]", "  [Key]", "[Key]  ", "\t[Key]"][(s % 4) as usize].to_string(),
             "comment" => ["# a comment", "#", "   # Name = x", "#[Key]"][(s % 4) as usize].to_string(),
             "blank" => ["", "   ", "\t", ""][(s % 4) as usize].to_string(),
-            "junk" => ["hello", "=x", "[key]", "name = x"][(s % 4) as usize].to_string(),
+            // (also long lines of multi-byte characters: text of another kind given as a keyring, an accent past byte 31)
+            "junk" => ["hello", "=x", "[key]", "name = x", "これは鍵束ではありません。ただのメモです。これは鍵束ではありません。",
+                       "this line is thirty-one bytes l\u{e9}ng and then some more of it follows here",
+                       "\u{1F511}\u{1F511}\u{1F511}\u{1F511}\u{1F511}\u{1F511}\u{1F511}\u{1F511}\u{1F511} keys", "x"][(s % 8) as usize].to_string(),
             "name_noeq" => ["Name alice", "Name", "Name: alice", "Name\talice"][(s % 4) as usize].to_string(),
             "name" => {
                 let val = m.names.iter().find(|(k, _)| k == v).map(|(_, x)| x.clone()).unwrap();
